@@ -551,7 +551,7 @@ func (m *Model) applyCreate(op Op, now int64) Outcome {
 		if op.S == StPX && op.Memo == "" && m.PxMode == 1 {
 			a.add("memo-empty", EcAny)
 		}
-		if (op.S == StStaff || op.S == StPX) && strOr(op.Ref) != "" && !m.Groups[*op.Ref] {
+		if (op.S == StStaff || (op.S == StPX && m.PxMode != 2)) && strOr(op.Ref) != "" && !m.Groups[*op.Ref] {
 			a.add("sponsor-missing", EcNotFound)
 		}
 		if a.bad() {
@@ -569,7 +569,9 @@ func (m *Model) applyCreate(op Op, now int64) Outcome {
 		}
 		if op.S == StPX {
 			p.HasPX, p.Memo = true, op.Memo
-			p.Sponsor = cloneStrP(op.Ref)
+			if m.PxMode != 2 {
+				p.Sponsor = cloneStrP(op.Ref)
+			}
 		}
 		m.People[id] = p
 		for _, g := range op.Groups {
@@ -715,7 +717,7 @@ func (m *Model) applyUpdate(op Op, now int64) Outcome {
 				n.Memo = op.Memo
 			}
 		}
-		if (op.S == StStaff || op.S == StPX) && op.updates("sponsor") {
+		if (op.S == StStaff || (op.S == StPX && m.PxMode != 2)) && op.updates("sponsor") {
 			n.Sponsor = cloneStrP(op.Ref)
 		}
 		n.UpdatedAt = now
